@@ -101,6 +101,14 @@ def make_hvp(fun, x):
     return _make_vjp(grad(fun), x)
 
 
+def _among_own_args(argnum, nargs):
+    """argnum with negative positions resolved among the nargs arguments of the user's function (the products below append a tensor to
+    the argument list: for the operator applied to that longer list, -1 would mean the tensor)."""
+    if isinstance(argnum, int):
+        return argnum + nargs if argnum < 0 else argnum
+    return type(argnum)(_among_own_args(a, nargs) for a in argnum)
+
+
 def hessian_tensor_product(fun, argnum=0):
     """Builds a function that returns the exact Hessian-tensor product.
     The returned function has arguments (*args, tensor, **kwargs), and for
@@ -111,7 +119,10 @@ def hessian_tensor_product(fun, argnum=0):
         args, vector = args[:-1], args[-1]
         return np.tensordot(fun_grad(*args, **kwargs), vector, np.ndim(vector))
 
-    return grad(vector_dot_grad, argnum)
+    def product(*args, **kwargs):
+        return grad(vector_dot_grad, _among_own_args(argnum, len(args) - 1))(*args, **kwargs)
+
+    return product
 
 
 hessian_vector_product = hessian_tensor_product
@@ -126,7 +137,10 @@ def tensor_jacobian_product(fun, argnum=0):
         args, vector = args[:-1], args[-1]
         return np.tensordot(vector, fun(*args, **kwargs), axes=np.ndim(vector))
 
-    return jacobian(vector_dot_fun, argnum)
+    def product(*args, **kwargs):
+        return jacobian(vector_dot_fun, _among_own_args(argnum, len(args) - 1))(*args, **kwargs)
+
+    return product
 
 
 vector_jacobian_product = tensor_jacobian_product
